@@ -41,11 +41,14 @@ func constKey(v constant.Value) string {
 	}
 }
 
-func (e *Engine) objKey(obj types.Object) string {
+func (e *Engine) objKey(obj types.Object) string { return e.P.ObjKey(obj) }
+
+// ObjKey is the canonical fact key of a variable.
+func (p *Program) ObjKey(obj types.Object) string {
 	if v, ok := obj.(*types.Var); ok && v.Pkg() != nil && v.Parent() == v.Pkg().Scope() {
 		return "G:" + v.Pkg().Name() + "." + v.Name()
 	}
-	pos := e.P.Fset.Position(obj.Pos())
+	pos := p.Fset.Position(obj.Pos())
 	return fmt.Sprintf("%s#%d", obj.Name(), pos.Offset)
 }
 
